@@ -123,6 +123,41 @@ Proof.
   - cbn [map]. repeat (constructor; [now apply int_text_word|]). constructor.
 Qed.
 
+(** * BINARY *)
+Lemma hex_val_hexd n : n < 16 -> hex_val (hexd n) = Some n /\ hex_char (hexd n) = true.
+Proof.
+  intros H. unfold hexd, hex_val, hex_char. destruct (N.ltb_spec n 10).
+  - replace ((48 <=? 48 + n) && (48 + n <=? 57)) with true by (symmetry; apply andb_true_intro; split; apply N.leb_le; lia).
+    split; [f_equal; lia|reflexivity].
+  - replace ((48 <=? 55 + n) && (55 + n <=? 57)) with false by (symmetry; apply andb_false_iff; right; apply N.leb_gt; lia).
+    replace ((65 <=? 55 + n) && (55 + n <=? 70)) with true by (symmetry; apply andb_true_intro; split; apply N.leb_le; lia).
+    split; [f_equal; lia|reflexivity].
+Qed.
+
+Theorem hex_text_roundtrip_gen (is_ws : N -> bool) : is_ws SPC = true -> (forall c, hex_char c = true -> is_ws c = false) ->
+  forall bs, Forall (fun b => b < 256) bs -> parse_hex is_ws (hex_text bs) = Some bs.
+Proof.
+  intros Hsp Hhex.
+  assert (Hbyte : forall b rest, b < 256 -> parse_hex is_ws (hex_byte b ++ rest) =
+                    match parse_hex is_ws rest with Some r => Some (b :: r) | None => None end).
+  { intros b rest Hb. unfold hex_byte. cbn [app parse_hex].
+    assert (H1 : b / 16 < 16) by (apply N.div_lt_upper_bound; lia).
+    assert (H2 : b mod 16 < 16) by (apply N.mod_lt; lia).
+    destruct (hex_val_hexd _ H1) as [Hv1 Hc1]. destruct (hex_val_hexd _ H2) as [Hv2 _].
+    rewrite (Hhex _ Hc1), Hv1, Hv2. destruct (parse_hex is_ws rest); [|reflexivity].
+    f_equal. f_equal. pose proof (N.div_mod b 16 ltac:(lia)). lia. }
+  assert (Htail : forall l, Forall (fun b => b < 256) l ->
+            parse_hex is_ws (flat_map (fun y => SPC :: y) (map hex_byte l)) = Some l).
+  { induction l as [|b l IH]; intros H; [reflexivity|]. inversion H as [|? ? Hb Hl]; subst.
+    cbn [map flat_map]. change (SPC :: hex_byte b ++ ?x) with (SPC :: (hex_byte b ++ x)).
+    cbn [app parse_hex]. rewrite Hsp. change (hexd (b / 16) :: hexd (b mod 16) :: ?x) with (hex_byte b ++ x).
+    rewrite (Hbyte b _ Hb), (IH Hl). reflexivity. }
+  intros [|b bs] H; [reflexivity|]. inversion H as [|? ? Hb Hl]; subst.
+  unfold hex_text. cbn [map join_sp]. rewrite (Hbyte b _ Hb), (Htail bs Hl). reflexivity.
+Qed.
+Example hex_text_example : hex_text [0; 171; 255] = [48;48; 32; 65;66; 32; 70;70] /\ hex_text [] = [].
+Proof. split; reflexivity. Qed.
+
 (** * Examples / refutations *)
 Example float_text_examples :
   float_text dmx_float_cfg {| dneg := false; dm := 1451; de := (-1)%Z |} = [55; 50; 53; 46; 53] /\        (* 725.5 *)
